@@ -32,7 +32,11 @@ def value_for(b, shape, dtype_kind="f", family_of=None, allow_tensor=True, posit
     lo, hi, signed = (0.4, 2.0, False) if positive else (0.3, 2.0, True)
     c = rng.random()
     if dtype_kind != "f":
-        if c < 0.5:
+        if c < 0.2:   # a float into an integer target: item assignment and augmented ops follow NumPy's own casting rules
+            return round(rng.uniform(-3, 3), 2), []
+        if c < 0.3:
+            return enc_arr(B.rand_values(rng, vshape, 0.3, 3.0)), []
+        if c < 0.6:
             return rng.randint(-3, 3), []
         return enc_arr(np.array([rng.randint(-3, 3) for _ in range(int(np.prod(vshape, dtype=int)))]).reshape(vshape)), []
     if c < 0.2:
@@ -271,7 +275,12 @@ def gen_history(rng, nstmts=(3, 12), int_prob=0.12, base_from_op_prob=0.4, secon
             base = nb or u
     if rng.random() < second_family_prob:
         b.leaf(B.rand_shape(rng, 2, 3, 1), constant=rng.choice([None, True]))
-    target = rng.randint(*nstmts)
+    n_inplace = grow(b, rng, base, rng.randint(*nstmts), inplace_w, view_w, read_w, setshape_w, bad_w, nonconst_only, const_kw_prob)
+    return b, base, n_inplace
+
+
+def grow(b, rng, base, target, inplace_w=4, view_w=4, read_w=3, setshape_w=0.6, bad_w=0.0, nonconst_only=False, const_kw_prob=0.0):
+    """Appends `target` random view / read / in-place statements over the builder's visible tensors; returns #in-place statements."""
     made = tries = 0
     n_inplace = 0
     acts = [("inplace", inplace_w), ("view", view_w), ("read", read_w), ("setshape", setshape_w), ("bad", bad_w)]
@@ -308,7 +317,34 @@ def gen_history(rng, nstmts=(3, 12), int_prob=0.12, base_from_op_prob=0.4, secon
                 n_inplace += 1
         if ok:
             made += 1
-    return b, base, n_inplace
+    return n_inplace
+
+
+def epoch_boundary(b, rng, keep_hint=()):
+    """Called right after a backward statement. Picks, from every NumPy memory family, at most one float non-constant C-/F-contiguous
+    tensor among `keep_hint` (tensors known to be in the graph that backward just cleared) as a survivor; hides every other tensor
+    from the generators (and deletes some), so that the next epoch's meaning does not depend on memory that MyGrad stopped sharing."""
+    from mgverif.hooks import root_array
+    fam = {}
+    for n in keep_hint:
+        v = b.it.env.get(n)
+        if isinstance(v, np.ndarray) and v.dtype.kind == "f" and v.size and b.meta[n]["nonconst"] and (v.flags.c_contiguous or v.flags.f_contiguous):
+            fam.setdefault(id(root_array(v)), []).append(n)
+    survivors = [rng.choice(ns) for ns in fam.values()]
+    if not survivors:
+        return None
+    for n, m in b.meta.items():
+        if n not in survivors and m["tensor"]:
+            m["tensor"] = False
+            if n in b.it.env and rng.random() < 0.5:
+                b.emit({"k": "del", "tgt": n})
+    nulled = [n for n in survivors if rng.random() < 0.5]
+    for n in nulled:
+        b.emit({"k": "nullgrad", "tgt": n})
+    assert b.emit({"k": "sever", "names": survivors})
+    for n in survivors:
+        b.meta[n]["leaf"] = True
+    return survivors, nulled
 
 
 def add_readout(b, rng, max_terms=4):
@@ -318,6 +354,7 @@ def add_readout(b, rng, max_terms=4):
         return None
     k = rng.randint(1, min(max_terms, len(cands)))
     chosen = rng.sample(cands, k)
+    b.last_readout = list(chosen)
     terms = []
     for t in chosen:
         w = B.rand_values(rng, np.shape(b.val(t)), 0.3, 1.5)
